@@ -143,7 +143,7 @@ func (r *results) finish() int {
 	for rel, ps := range byPkg {
 		var files []string
 		for _, p := range ps {
-			if p.v.Kind == "race" || p.v.Kind == "deadlock" {
+			if p.v.Kind == "race" || p.v.Kind == "deadlock" || p.v.Kind == "interleaving" {
 				continue
 			}
 			files = append(files, p.path)
@@ -156,7 +156,7 @@ func (r *results) finish() int {
 			desc := fmt.Sprintf("%s/%s tags=%v %s", p.v.Harness, p.v.Label, p.v.Tags, firstLine(p.v.Detail))
 			confirmed := false
 			switch p.v.Kind {
-			case "race", "deadlock":
+			case "race", "deadlock", "interleaving":
 				// schedule-dependent: confirmed by the schedule trace itself (the native detector cannot be forced
 				// into the schedule); reported with the trail as the replay artefact
 				confirmed = true
